@@ -13,8 +13,6 @@ from . import common as C
 from . import c04
 
 OPTS = {"loop_bound": 3}
-PUSHERS = {"PrefixMap::_remove_node", "PrefixMap::_do_remove_children"}
-POPPERS = {"PrefixMap::new_node"}
 CLEARERS = {"PrefixMap::clear"}
 ASSUMES = ["C15 tree shape of the pre-state (distinct link values denote distinct slots)", "pt/models.py std model"]
 LEVEL_TEXT = __doc__
